@@ -57,7 +57,13 @@ TRUSTED = ["Model/C16/Musig2.lean is a hand transcription of btclib/ecc/musig2.p
            "the model output of a `@python` stream is the one computed for the identical `@bindings` op lines",
            "SHA-256 / tagged hash of the driver are modelled, validated against hashlib each run (hash.* streams)",
            "libsecp256k1 (partial_sig_verify_'s delegated arm, point arithmetic) is compared, not verified"]
-ASSUMPTIONS = []
+ASSUMPTIONS = [
+    "hcof / Btc.E2E.SecpCofactorOne (cofactor one: n*g = 0 for every point of y^2 = x^3 + 7 over the secp256k1 field, "
+    "i.e. #E = n; not proved, Mathlib has no point count): first explicit argument of the counted theorems "
+    "musig2_partial_sig_verifies_secp256k1_raw and musig2_aggregate_verifies_secp256k1_raw (MuSig2 T2/T3 over the raw "
+    "Btc.EC.ops secp256k1). Every other counted theorem is either abstract (hypothesis Btc.Lawful / Btc.LawfulGroup, "
+    "proved by C01 for the carrier opsSub), or carries no assumption about the curve.",
+]
 
 ORACLES: dict = {}
 
@@ -2416,7 +2422,7 @@ def _impl_sp(t) -> str:  # noqa: PLR0911
             if m < 0:
                 return "bad-op"
             return _call(lambda: str(sp.label_tweak(b, m)))
-        if op == "sp.output_keys" and len(a) == 3:
+        if op in ("sp.output_keys", "sp.output_keys_walk") and len(a) == 3:  # two model forms, one function
             keys, ops, recips = _p_spkeys(a[0]), _p_outpoints(a[1]), _p_points(a[2], 4)
 
             def f():
@@ -2479,6 +2485,8 @@ def emit_sp_scenario(ctx, L: Lines, rng, w):
         bs, bm, _net = sp.keys_from_address(addr)
         recips.append((bs, bm))
     L.add(f"sp.output_keys {keys_tok} {ops_tok} {_t_points(recips)}")
+    # the specification-form model (one walk in address order: the subject of the end-to-end theorem) on the same input
+    L.add(f"sp.output_keys_walk {keys_tok} {ops_tok} {_t_points(recips)}")
     keys = tx.pay()
     outputs = keys + [bytes.fromhex(d) for d in w["decoys"]]
     _random.Random(w["shuffle"]).shuffle(outputs)
@@ -3231,14 +3239,24 @@ def run_ell(ctx):
                     fw.append(f"ell.xswiftec {tok} {x} {u}")
                     for c in range(8):
                         inv.append(f"ell.xswiftec_inv {tok} {x} {u} {c}")
+    # the guard `return t or None`: on the curve with a point of order 2, EVERY (x, case) for the u with u^3 + b = 0 --
+    # exactly where the unguarded formula gives t = 0 (so the stream reaches the guard on every run, both arms)
+    ec8, tok8 = _ell_toy("toy19b8")
+    for u in range(1, ec8.p):
+        if (u**3 + ec8._b) % ec8.p == 0:
+            for x in range(ec8.p):
+                for c in range(8):
+                    inv.append(f"ell.xswiftec_inv {tok8} {x} {u} {c}")
+                    ctx.count("ell.guard", "u^3+b=0 line")
     _stream_both(ctx, "ell.xswiftec", fw)
     _stream_both(ctx, "ell.xswiftec_inv", inv)
     # the curves the Lean theorem ellswift_roundtrip_small_curves_partial is about, on the real code
     ctx.check("ellswift.small_curve_roundtrip", {"curve": "toy19b2"})
     ctx.check("ellswift.small_curve_roundtrip", {"curve": "toy43b7"})
     # a curve with a point of order 2 that `_constants` accepts (a == 0, sqrt(-3) exists): the inverse used to answer
-    # t = 0 there, which the forward map reads as t = 1 -- decode_var(encode_var(Q)) != Q. Found by this oracle,
-    # repaired in /repo c67c7290 (`return t or None`); kept as a regression that must pass.
+    # t = 0 there, which the forward map reads as t = 1 -- decode_var(encode_var(Q)) != Q. Found by the independent
+    # audit (AUDIT.md, C16 item 1), reproduced here; repaired in /repo c67c7290 (`return t or None`); kept as a
+    # regression that must pass.
     ctx.check("ellswift.small_curve_roundtrip", {"curve": "toy19b8"}, key="ellswift.inverse_answers_zero_t_on_2torsion_curve")
     ec8, _ = _ell_toy("toy19b8")
     for q in range(1, ec8.n):  # and the public pair on that curve
